@@ -145,8 +145,9 @@ pub fn run_case(prop: &str, tapes: &mut Tapes) -> Result<CaseResult, HarnessErro
         return crate::introspect::case_c20(tapes);
     }
     let bias = prop == "C22";
-    // C04 and C05 live on tags: bias half of their cases toward many tags and tag operands.
-    let bias_tags = matches!(prop, "C04" | "C05") && tapes.query.draw(2) == 1;
+    // Tag interactions (tags into sibling folds, repeated uses, imported tags, dynamic hints):
+    // half of the cases of these properties are biased toward many tags and tag operands.
+    let bias_tags = crate::runner::wants_tag_bias(prop) && tapes.query.draw(2) == 1;
     let w = match crate::runner::build_workload_biased(tapes, bias, bias_tags) {
         Ok(w) => w,
         Err(BuildError::SchemaRejected(text, err)) => {
